@@ -230,8 +230,22 @@ let macro g mode s t kind answers =
 
 (* accept and construct channel c from a state whose I/O thread is at the top of a poll turn *)
 let preset g s c =
-  let toks = [ANone; ANone; (if g.use_poll2 then APoll2 [((FL, (true, false)), (false, false))] else ASel ([FL], [], [])); ANone; AAcc (AccConn c); ACall None; ANone; ACall None; ACall None; ANone; ANone] in
-  List.fold_left (fun s a -> match step g s (IO, a) with Some (s', _) -> s' | None -> failwith "preset") s toks
+  let sel = if g.use_poll2 then APoll2 [((FL, (true, false)), (false, false))] else ASel ([FL], [], []) in
+  let s = ref s in
+  let fuel = ref 40 in
+  let created () = (getc !s c).created in
+  let at_top () = match next_instr !s IO with Some (IPoll, false) -> true | _ -> false in
+  while !fuel > 0 && not (created () && at_top ()) do
+    decr fuel;
+    let a = match next_instr !s IO with
+      | Some (ISelWait _, false) -> sel
+      | Some (IAccept, false) -> AAcc (AccConn c)
+      | Some ((ISetOpts _ | IInitGso _ | IInitSbl _), false) -> ACall None
+      | _ -> ANone in
+    (match step g !s (IO, a) with Some (s', _) -> s := s' | None -> failwith "preset")
+  done;
+  if !fuel = 0 then failwith "preset";
+  !s
 
 let parse_tok tok =
   match String.split_on_char ';' tok with
